@@ -34,6 +34,8 @@ Definition c_dump_node (h : heap) (D : nfilter) (Fs : list nfilter) (kcount : ni
   ++ frame 14 0 (enc_res enc_opt (h_last_descendant h D n))
   ++ frame 16 0 (enc_res enc_nat (h_depth h D n))
   ++ frame 19 0 (enc_res enc_str (h_full_text h D n))
+  ++ frame 26 0 (enc_res (map N.of_nat) (h_location_path h D n))
+  ++ frame 27 0 (enc_res enc_opt (h_document_root h D n))
   ++ flat_map (fun fF => let i := fst fF in let F := snd fF in
        frame 1 i (enc_res enc_ids (h_iterate_children h D F n))
        ++ frame 9 i (enc_res enc_opt (h_fetch_following_sibling h D F n))
